@@ -76,7 +76,9 @@ class C05(Prop):
                   "returned to any handle or by the driver is convert(cell), for ever; close is called at most once, only for a "
                   "locally detected winner, with exactly its code; with register-before-check no reachable quiescent state has the "
                   "cell set and the driver parked without a pending notification; with check-before-register a five-step schedule "
-                  "loses the wake-up (decide)")
+                  "loses the wake-up (decide); shutdown() starts with the same check without a waker (check_connection_error): in "
+                  "every reachable state with the cell set it answers convert(cell), closes exactly closeOf(cell), and with a "
+                  "handled error it decides to report it before sent_closing or the control stream are touched")
     level_note = ("trusted: Lean kernel + 3 standard axioms; the model is tied to the code by executing every interleaving (at the "
                   "granularity of the pre-emption hooks) of driver polls with 1..3 raising handles on the real SharedState/"
                   "ConnectionInner of a real server::Connection over the in-memory transport, OS threads parked at the hooks; "
